@@ -88,7 +88,8 @@ pub fn run(args: &Args) -> i32 {
     let colliding: Vec<String> = (0..70).map(|n| alias_key(Keys::CollidingMod64, n)).collect();
     let queries = std::sync::atomic::AtomicU64::new(0);
     let max_steps = std::sync::atomic::AtomicU64::new(0);
-    engine::par_for(families.len(), args.seed, |_w, i| {
+    let is_worker = engine::child_ctl(args).is_some();
+    let run_family = |i: usize| {
         let (s, w, o, k) = families[i];
         let fam = json!({"kind": "family", "structure": format!("{s:?}"), "live": w, "remove": format!("{o:?}"), "keys": format!("{k:?}")});
         if let Some(r) = &only {
@@ -186,14 +187,25 @@ pub fn run(args: &Args) -> i32 {
             }
             free_nodes.push(rn);
         }
-    });
+    };
+    // the families run in worker processes (a subject that aborts is charged to its family); the map BFS runs in the parent
+    let counts = |r: &Report| {
+        r.set("family_queries_under_budget", json!(queries.load(std::sync::atomic::Ordering::SeqCst)));
+    };
+    if only.is_some() {
+        for i in 0..families.len() {
+            run_family(i);
+        }
+    } else if engine::run_items_isolated(args, &report, families.len(), &run_family, &counts, &|i| (format!("family|structure={:?}|keys={:?}", families[i].0, families[i].3), format!("family {:?}", families[i]), json!({"kind": "family", "structure": format!("{:?}", families[i].0), "live": families[i].1, "remove": format!("{:?}", families[i].2), "keys": format!("{:?}", families[i].3)}))) {
+        return 0;
+    }
 
     // ---------------- (b) scaled constants: BFS over the real multi map, capacity floor 4
     let mut states: u64 = 0;
     let mut transitions: u64 = 0;
     let mut depth_reached = 0usize;
     let mut capped = false;
-    for profile in ["index", "map"] {
+    for profile in if is_worker { vec![] } else { vec!["index", "map"] } {
     if only.as_ref().map(|r| r["kind"] == "map" && r["profile"] == profile).unwrap_or(true) {
         let keys = [0u64, 1, 4, 5, 8];
         let vals = [0u64, 1];
@@ -389,8 +401,9 @@ pub fn run(args: &Args) -> i32 {
     report.set("traces_validated_against_impl", json!(transitions + families.len() as u64));
     report.set("families", json!(families.len()));
     report.set("cycles_per_family", json!(cycles));
-    report.set("family_queries_under_budget", json!(queries.load(std::sync::atomic::Ordering::SeqCst)));
-    report.set("max_probe_steps_of_one_query", json!(max_steps.load(std::sync::atomic::Ordering::SeqCst)));
+    if only.is_some() {
+        report.set("family_queries_under_budget", json!(queries.load(std::sync::atomic::Ordering::SeqCst)));
+    }
     report.set("probe_budget", json!(PROBE_BUDGET));
     report.set("map_bfs_depth_reached", json!(depth_reached));
     report.set("map_max_entries", json!(max_len));
